@@ -674,6 +674,7 @@ compact_theta_sketch_alloc<A> compact_theta_sketch_alloc<A>::deserialize_v4(
     uint8_t preamble_longs, std::istream& is, uint64_t seed, const A& allocator)
 {
   const auto entry_bits = read<uint8_t>(is);
+  if (entry_bits < 1 || entry_bits > 63) throw std::invalid_argument("wrong number of entry bits: " + std::to_string(entry_bits));
   const auto num_entries_bytes = read<uint8_t>(is);
   const auto flags_byte = read<uint8_t>(is);
   const auto seed_hash = read<uint16_t>(is);
